@@ -54,8 +54,10 @@ type FuncContract struct {
 	HavocAll  bool
 	PubArgs   bool
 	Publishes []*SX
+	LoopPub   map[int][]string // loop ordinal -> names of loop variables whose objects are published at loop entry
 	Used      bool
 	Implicit  bool
+	PreAsPanic bool // callee preconditions are not obligations: a call whose precondition cannot be assumed may panic or return anything (its ensures are assumed only under the precondition); for functions that guard a block of calls with a catch-all recover
 	FrameOnly bool // verified for its frame only: may panic, callee preconditions are not obligations (callee ensures are assumed only under them)
 	Borrows   []string    // parameters the callee neither retains nor describes in its clauses: objects reachable only through them are not published at the call
 	FreshObjs []writeSpec // objects reachable from the results that the callee allocated (heap, address term over the post-state; -1 = none)
@@ -103,7 +105,7 @@ type Contracts struct {
 	Prelude []string // raw SMT text blocks from contract files (//@ smt ...)
 }
 
-var clauseHead = regexp.MustCompile(`^(func|extern|requires|ensures|panic_value|panics_may|panics|rejects|spec_args|functional|may_panic|modifies|loop|inline|trusted|pure|tags|ghost|let|global|lemma|axiom|fresh|unroll|noverify|calls|expect|smt|havoc_all|publishes|writes|fresh_obj|frame_only|borrows)\b(\[[^\]]*\])?\s*(.*)$`)
+var clauseHead = regexp.MustCompile(`^(func|extern|requires|ensures|panic_value|panics_may|panics|rejects|spec_args|functional|may_panic|modifies|loop|inline|trusted|pure|tags|ghost|let|global|lemma|axiom|fresh|unroll|noverify|calls|expect|smt|havoc_all|publishes|writes|fresh_obj|frame_only|pre_as_panic|borrows)\b(\[[^\]]*\])?\s*(.*)$`)
 
 func loadContracts(files []string) (*Contracts, error) {
 	cs := &Contracts{Funcs: map[string]*FuncContract{}}
@@ -310,6 +312,8 @@ func (cs *Contracts) loadFile(path string) error {
 				c.SpecArgs = strings.TrimSpace(r.rest)
 			case "borrows":
 				c.Borrows = append(c.Borrows, strings.Fields(r.rest)...)
+			case "pre_as_panic":
+				c.PreAsPanic = true
 			case "may_panic":
 				c.MayPanic = true
 			case "frame_only":
@@ -373,6 +377,14 @@ func (cs *Contracts) loadFile(path string) error {
 						lab = fmt.Sprintf("i%d", len(c.Loops[n])+1)
 					}
 					c.Loops[n] = append(c.Loops[n], &Clause{Kind: "invariant", Tags: ltags, Label: lab, Term: t, Src: r.src, Loop: n})
+				case strings.HasPrefix(rest, "publishes"):
+					// the named loop variables' objects (allocated before the loop) are published at loop
+					// entry: the activation gives up writing to them, and in exchange their content is the
+					// frozen content that callee contracts speak about in every iteration
+					if c.LoopPub == nil {
+						c.LoopPub = map[int][]string{}
+					}
+					c.LoopPub[n] = append(c.LoopPub[n], strings.Fields(rest[len("publishes"):])...)
 				case strings.HasPrefix(rest, "unroll"):
 					k, err := strconv.Atoi(strings.TrimSpace(rest[len("unroll"):]))
 					if err != nil {
